@@ -67,3 +67,93 @@ contract(SOL + "drainage.py", "drainage",
          assigns=[],
          options=dict(merge_limit=10),
          props=("C01", "C03", "C04", "C12", "C16"))
+
+# ----------------------------------------------------------------------------- record classes
+declare_fields("InitialCondition", default="Real",
+               th=_PA, thini=_PA, th_fc_Adj=_PA, aer_days_comp=_PA,
+               dap="Int", age_days="Int", age_days_ns="Int", aer_days="Real", day_submerged="Int", delayed_cds="Int", growth_stage="Int",
+               time_step_counter="Int", stage="Int",
+               pre_adj="Bool", crop_mature="Bool", crop_dead="Bool", germination="Bool", premat_senes="Bool", harvest_flag="Bool",
+               growing_season="Bool", yield_form="Bool", stage2="Bool", wt_in_soil="Bool", protected_seed="Bool")
+declare_fields("IrrMngtStruct", default="Real", irrigation_method="Int", IrrInterval="Int", SMT=ARR("Real", 4), Schedule=ARR("Real", "n_steps"))
+declare_fields("FieldMngtStruct", default="Real", mulches="Bool", bunds="Bool", curve_number_adj="Bool", sr_inhb="Bool")
+
+
+def WATER_INV(th, p="prof"):
+    return "forall(j, 0, n, %s.th_dry[j] <= %s[j] and %s[j] <= %s.th_s[j])" % (p, th, th, p)
+
+
+# ----------------------------------------------------------------------------- pre_irrigation
+contract(SOL + "pre_irrigation.py", "pre_irrigation",
+         params=dict(prof=OBJ("SoilProfile"), Crop=OBJ("Crop"), InitCond=OBJ("InitialCondition"), growing_season="Bool", IrrMngt=OBJ("IrrMngtStruct")),
+         ghost=GHOST_N,
+         requires=WF() + [WATER_INV("InitCond.th"),
+                          "0 <= IrrMngt.NetIrrSMT and IrrMngt.NetIrrSMT <= 100",
+                          "implies(growing_season, max(InitCond.z_root, Crop.Zmin) + 0.005 <= prof.dzsum[n-1])"],
+         returns=[("NewCond", ("Param", "InitCond")), ("PreIrr", "Real")],
+         ensures=[
+             ("C01.pre_irrigation_mass", "wsum(prof.dz, NewCond.th, n) == old(wsum(prof.dz, InitCond.th, n)) + PreIrr"),
+             ("C04.pre_irrigation_sign", "PreIrr >= 0"),
+             ("C03.pre_irrigation_bounds", WATER_INV("NewCond.th")),
+             ("C13.pre_irrigation_only_net_day1", "implies(not (growing_season and IrrMngt.irrigation_method == 4 and old(InitCond.dap) == 1), PreIrr == 0 and forall(j, 0, n, NewCond.th[j] == old(InitCond.th[j])))"),
+             ("C03.pre_irrigation_monotone", "forall(j, 0, n, NewCond.th[j] >= old(InitCond.th[j]))"),
+             ("C12.pre_irrigation_same_object", "same(NewCond, InitCond) and same(NewCond.th, old(InitCond.th))"),
+         ],
+         loops={"L1": dict(invariant=[
+             ("sign", "PreIrr >= 0"),
+             ("mass", "wsum(prof.dz, NewCond.th, n) == old(wsum(prof.dz, InitCond.th, n)) + PreIrr"),
+             ("bounds", WATER_INV("NewCond.th")),
+             ("monotone", "forall(j, 0, n, NewCond.th[j] >= old(InitCond.th[j]))"),
+             ("hi", "compRz < n"),
+         ])},
+         assigns=["InitCond.th[*]"],
+         props=("C01", "C03", "C04", "C08", "C12", "C13", "C16"))
+
+# ----------------------------------------------------------------------------- groundwater_inflow
+contract(SOL + "groundwater_inflow.py", "groundwater_inflow",
+         params=dict(prof=OBJ("SoilProfile"), NewCond=OBJ("InitialCondition")),
+         ghost=GHOST_N,
+         requires=WF() + [WATER_INV("NewCond.th"),
+                          "length(prof.Comp) == n",
+                          "implies(NewCond.wt_in_soil, prof.zMid[n-1] >= NewCond.z_gw)"],
+         returns=[("Out", ("Param", "NewCond")), ("GwIn", "Real")],
+         ensures=[
+             ("C01.gw_inflow_mass", "wsum(prof.dz, Out.th, n) == old(wsum(prof.dz, NewCond.th, n)) + GwIn"),
+             ("C04.gw_inflow_sign", "GwIn >= 0"),
+             ("C03.gw_inflow_bounds", WATER_INV("Out.th")),
+             ("C19.gw_inflow_saturates_below_table", "implies(NewCond.wt_in_soil, forall(j, 0, n, implies(prof.zMid[j] >= NewCond.z_gw and forall(i, 0, j, prof.zMid[i] <= prof.zMid[j]), Out.th[j] == prof.th_s[j])))"),
+             ("C19.gw_inflow_zero_without_table", "implies(not NewCond.wt_in_soil, GwIn == 0 and forall(j, 0, n, Out.th[j] == old(NewCond.th[j])))"),
+         ],
+         loops={"L1": dict(invariant=[
+             ("sign", "GwIn >= 0"),
+             ("mass", "wsum(prof.dz, NewCond.th, n) == old(wsum(prof.dz, NewCond.th, n)) + GwIn"),
+             ("bounds", WATER_INV("NewCond.th")),
+             ("sat", "forall(j, idx, ii, NewCond.th[j] == prof.th_s[j])"),
+         ])},
+         assigns=["NewCond.th[*]"],
+         props=("C01", "C03", "C04", "C19", "C12", "C16"))
+
+# ----------------------------------------------------------------------------- rainfall_partition
+contract(SOL + "rainfall_partition.py", "rainfall_partition",
+         params=dict(precipitation="Real", InitCond_th=_PA, NewCond_DaySubmerged="Int", FieldMngt_SRinhb="Bool", FieldMngt_Bunds="Bool",
+                     FieldMngt_zBund="Real", FieldMngt_CNadjPct="Real", Soil_CN="Real", Soil_AdjCN="Int", Soil_zCN="Real", Soil_nComp="Int",
+                     prof=OBJ("SoilProfile")),
+         ghost=GHOST_N,
+         requires=WF() + [
+             "precipitation >= 0", "Soil_nComp == n",
+             "Soil_AdjCN == 0 or Soil_AdjCN == 1",
+             # the property's domain: an effective curve number in [1, 100]
+             "1 <= Soil_CN * (1 + FieldMngt_CNadjPct / 100) and Soil_CN * (1 + FieldMngt_CNadjPct / 100) <= 100",
+             "0 < Soil_zCN and Soil_zCN <= prof.dzsum[n-1]",
+         ],
+         returns=[("Runoff", "Real"), ("Infl", "Real"), ("DaySubmerged", "Int")],
+         ensures=[
+             ("C02.rain_partition_sum", "Runoff + Infl == precipitation"),
+             ("C02.rain_partition_runoff_bounds", "0 <= Runoff and Runoff <= precipitation"),
+             ("C02.rain_partition_zero", "implies(precipitation == 0, Runoff == 0 and Infl == 0)"),
+             ("C02.rain_partition_inhibited", "implies(FieldMngt_SRinhb or (FieldMngt_Bunds and FieldMngt_zBund >= 0.001), Runoff == 0 and Infl == precipitation)"),
+         ],
+         loops={"L1": dict(invariant=[]), "L2": dict(invariant=[])},
+         assigns=[],
+         options=dict(reads_only_if={"FieldMngt_zBund": "FieldMngt_Bunds", "FieldMngt_CNadjPct": "not FieldMngt_SRinhb"}),
+         props=("C02", "C12", "C16", "C20"))
